@@ -71,8 +71,10 @@ SocketPrivate::SocketPrivate(Socket *httpSocket, QTcpSocket *tcpSocket)
     connect(socket, &QTcpSocket::readChannelFinished, this, &SocketPrivate::onReadChannelFinished);
     connect(socket, &QTcpSocket::disconnected, q, &Socket::disconnected);
 
-    // Process anything already received by the socket
-    onReadyRead();
+    // Process anything already received by the socket - from the event loop,
+    // since the Socket that owns this object is not completely constructed
+    // yet and nothing can be connected to its signals before it is
+    QMetaObject::invokeMethod(this, "onReadyRead", Qt::QueuedConnection);
 }
 
 QByteArray SocketPrivate::statusReason(int statusCode) const
